@@ -16,6 +16,7 @@ import (
 	"runtime"
 	"sort"
 	"strings"
+	"sync"
 
 	"github.com/consensys/gnark-crypto/ecc"
 	"github.com/consensys/gnark/backend/groth16"
@@ -46,6 +47,32 @@ func splitDefs(src string) map[string]string {
 		out[name] = hex.EncodeToString(h[:8])
 	}
 	return out
+}
+
+var reGadgetTok = regexp.MustCompile(`\b[A-Za-z][A-Za-z0-9]*(?:_[0-9]+)+\b`)
+
+// modelShape: is the extracted text a COMPLETE model?  closed = the namespace is opened and closed; mains = the top-level circuit
+// definitions present; dangling = gadget names used somewhere in the text without a definition
+func modelShape(src string) map[string]interface{} {
+	defs := splitDefs(src)
+	mains := []string{}
+	for n := range defs {
+		if strings.HasPrefix(n, "InsertionMbuCircuit_") || strings.HasPrefix(n, "DeletionMbuCircuit_") {
+			mains = append(mains, n[:strings.Index(n, "_")])
+		}
+	}
+	sort.Strings(mains)
+	dangling := []string{}
+	seen := map[string]bool{}
+	for _, t := range reGadgetTok.FindAllString(src, -1) {
+		if _, ok := defs[t]; !ok && !strings.HasPrefix(t, "gate_") && !seen[t] {
+			seen[t] = true
+			dangling = append(dangling, t)
+		}
+	}
+	sort.Strings(dangling)
+	return map[string]interface{}{"closed": strings.Contains(src, "namespace SemaphoreMTB") && strings.HasSuffix(strings.TrimSpace(src), "end SemaphoreMTB"),
+		"mains": mains, "dangling": len(dangling)}
 }
 
 func sha(s []byte) string { h := sha256.Sum256(s); return hex.EncodeToString(h[:]) }
@@ -160,26 +187,54 @@ func init() {
 			Dims [][]interface{} `json:"dims"` // [mode, depth, batch]
 		}
 		loadCases(args, &c)
-		for rep := 0; rep < 2; rep++ {
-			for _, d := range c.Dims {
-				mode, depth, batch := d[0].(string), uint32(d[1].(float64)), uint32(d[2].(float64))
-				rec := map[string]interface{}{"event": "build", "mode": mode, "depth": depth, "batch": batch, "path": "r1cs-same-process", "procs": runtime.GOMAXPROCS(0), "pid": os.Getpid(),
-					"digest": "", "nbPublic": -1, "nbSecret": -1, "err": ""}
-				var cs constraint.ConstraintSystem
-				var err error
+		build := func(d []interface{}, path string) map[string]interface{} {
+			mode, depth, batch := d[0].(string), uint32(d[1].(float64)), uint32(d[2].(float64))
+			rec := map[string]interface{}{"event": "build", "mode": mode, "depth": depth, "batch": batch, "path": path, "procs": runtime.GOMAXPROCS(0), "pid": os.Getpid(),
+				"digest": "", "nbPublic": -1, "nbSecret": -1, "err": ""}
+			var cs constraint.ConstraintSystem
+			var err error
+			func() {
+				defer func() {
+					if p := recover(); p != nil {
+						err = fmt.Errorf("panic: %v", p)
+					}
+				}()
 				if mode == "insertion" {
 					cs, err = prover.BuildR1CSInsertion(depth, batch)
 				} else {
 					cs, err = prover.BuildR1CSDeletion(depth, batch)
 				}
-				if err != nil {
-					rec["err"] = firstLine(err.Error())
-				} else {
-					rec["digest"] = digestCS(cs)
-					rec["nbPublic"] = cs.GetNbPublicVariables() - 1
-					rec["nbSecret"] = cs.GetNbSecretVariables()
-					rec["nbConstraints"] = cs.GetNbConstraints()
-				}
+			}()
+			if err != nil {
+				rec["err"] = firstLine(err.Error())
+			} else {
+				rec["digest"] = digestCS(cs)
+				rec["nbPublic"] = cs.GetNbPublicVariables() - 1
+				rec["nbSecret"] = cs.GetNbSecretVariables()
+				rec["nbConstraints"] = cs.GetNbConstraints()
+			}
+			return rec
+		}
+		for rep := 0; rep < 2; rep++ {
+			for _, d := range c.Dims {
+				b, _ := json.Marshal(build(d, "r1cs-same-process"))
+				fmt.Println(string(b))
+			}
+		}
+		// the same dimensions compiled AT THE SAME TIME on several goroutines of this process (a service or tool preparing several
+		// systems at once): each build is still the function of (mode, depth, batch) the registry says it is
+		for round := 0; round < 3; round++ {
+			recs := make([]map[string]interface{}, 2*len(c.Dims))
+			var wg sync.WaitGroup
+			for i := range recs {
+				wg.Add(1)
+				go func(i int) {
+					defer wg.Done()
+					recs[i] = build(c.Dims[i%len(c.Dims)], "r1cs-concurrent")
+				}(i)
+			}
+			wg.Wait()
+			for _, rec := range recs {
 				b, _ := json.Marshal(rec)
 				fmt.Println(string(b))
 			}
@@ -224,18 +279,19 @@ func init() {
 		loadCases(args, &c)
 		defer func() {
 			for k := 0; k < c.Reps && c.CLI == ""; k++ {
-				rec := map[string]interface{}{"event": "extract", "depth": c.Depth, "batch": c.Batch, "procs": runtime.GOMAXPROCS(0), "pid": os.Getpid(), "whole": "", "defs": map[string]string{}, "err": "", "via": "lib-repeat"}
+				rec := map[string]interface{}{"event": "extract", "depth": c.Depth, "batch": c.Batch, "procs": runtime.GOMAXPROCS(0), "pid": os.Getpid(), "whole": "", "defs": map[string]string{}, "err": "", "via": "lib-repeat", "shape": map[string]interface{}{"closed": false, "mains": []string{}, "dangling": 0}}
 				if src, err := prover.ExtractLean(c.Depth, c.Batch); err != nil {
 					rec["err"] = firstLine(err.Error())
 				} else {
 					rec["whole"] = sha([]byte(src))
 					rec["defs"] = splitDefs(src)
+					rec["shape"] = modelShape(src)
 				}
 				b, _ := json.Marshal(rec)
 				fmt.Println(string(b))
 			}
 		}()
-		rec := map[string]interface{}{"event": "extract", "depth": c.Depth, "batch": c.Batch, "procs": runtime.GOMAXPROCS(0), "pid": os.Getpid(), "whole": "", "defs": map[string]string{}, "err": "", "via": "lib"}
+		rec := map[string]interface{}{"event": "extract", "depth": c.Depth, "batch": c.Batch, "procs": runtime.GOMAXPROCS(0), "pid": os.Getpid(), "whole": "", "defs": map[string]string{}, "err": "", "via": "lib", "shape": map[string]interface{}{"closed": false, "mains": []string{}, "dangling": 0}}
 		var src string
 		var err error
 		if c.CLI != "" {
@@ -267,6 +323,7 @@ func init() {
 		} else {
 			rec["whole"] = sha([]byte(src))
 			rec["defs"] = splitDefs(src)
+			rec["shape"] = modelShape(src)
 			if c.Keep != "" {
 				os.WriteFile(c.Keep, []byte(src), 0o644)
 			}
